@@ -216,6 +216,11 @@ pub fn c09(cx: &Ctx) -> (Vec<Violation>, Cover) {
                                     clean = false;
                                     break;
                                 }
+                                Ev::Pre { cmd, .. } if a.cmd_of(*cmd).map(|c2| c2.run == x.run).unwrap_or(false) => {
+                                    // a command of the busy run itself (queued by its result handler after its deferred
+                                    // commands had been applied) is still part of that execution: skip its bracket
+                                    z = a.cmd_of(*cmd).and_then(|c2| c2.post).unwrap_or(z) + 1;
+                                }
                                 Ev::Pre { cmd, .. } => {
                                     v.push(Violation::new(
                                         "C09",
